@@ -213,6 +213,9 @@ func (h *pkH) addr(tok string) (sdk.AccAddress, string) {
 			if i >= 0 && i < len(h.actors) {
 				return h.actors[i], h.actors[i].String()
 			}
+			if i >= 2000 && i < 2000+len(h.pfm) {
+				return h.pfm[i-2000], h.pfm[i-2000].String()
+			}
 			a := Actor(5000 + i)
 			h.actorIdx[a.String()] = i
 			return a, a.String()
